@@ -37,7 +37,7 @@ def _outer(f):
     return f[0] if isinstance(f, tuple) and f and f[0] not in ("discr", "bool") else None
 
 
-def _transfer(fn, b, fs, tracked, root, enums=frozenset(), resolved=None):
+def _transfer(fn, b, fs, tracked, root, enums=frozenset(), resolved=None, edge_facts=None):
     """Apply block b's statements and terminator to the fact map fs; returns (facts-after, successor list).
     A fact is (variant, inner fact or None): `Ok(Some(x))` is ("Ok", ("Some", None))."""
     fs = dict(fs)
@@ -164,6 +164,24 @@ def _transfer(fn, b, fs, tracked, root, enums=frozenset(), resolved=None):
                 src = fs.get(f_[2])
                 if src is not None and src[1] is None:
                     fs.pop(f_[2], None)
+            elif edge_facts is not None:
+                # an ordinary match: along each arm the scrutinee's variant is known from here on (a later
+                # re-match of the same value, e.g. `other => other.map_err(..)`, then takes one side only)
+                for s_ in b["stmts"]:
+                    rv_ = s_["rv"]
+                    if rv_["k"] == "discr" and s_["lhs"]["l"] == p["l"] and not s_["lhs"].get("p") and \
+                            not rv_["pl"].get("p") and rv_.get("variants"):
+                        names = {int(v_["val"]): v_["name"] for v_ in rv_["variants"]}
+                        by_t = {}
+                        for v_, tb in t["targets"]:
+                            by_t.setdefault(tb, []).append(int(v_))
+                        listed = set(int(v_) for v_, _tb in t["targets"])
+                        rest = [v_ for v_ in names if v_ not in listed]
+                        if len(rest) == 1 and t["otherwise"] not in by_t:
+                            by_t[t["otherwise"]] = rest
+                        for tb, vals in by_t.items():
+                            if len(vals) == 1 and vals[0] in names:
+                                edge_facts[tb] = {rv_["pl"]["l"]: (names[vals[0]], None)}
         return fs, succ
     return fs, []
 
@@ -284,14 +302,21 @@ def threaded(fn, limit_factor=4):
             succs[st] = []
             continue
         rs = []
-        out, ss = _transfer(fn, b, dict(fs), tracked, root, enums, rs)
+        ef = {}
+        out, ss = _transfer(fn, b, dict(fs), tracked, root, enums, rs, ef)
         if rs:
             resolved_at[st] = rs[0]
         res = []
         for s in ss:
             if blocks[s].get("cleanup"):
                 continue
-            ns = (s, frozenset((l, f_) for l, f_ in out.items() if l in live[s]))
+            o2 = out
+            if s in ef:
+                o2 = dict(out)
+                for l_, f_ in ef[s].items():
+                    if l_ not in o2:
+                        o2[l_] = f_
+            ns = (s, frozenset((l, f_) for l, f_ in o2.items() if l in live[s]))
             if ns not in index:
                 index[ns] = len(order)
                 order.append(ns)
